@@ -104,7 +104,13 @@ class DefGen:
             return name, None
         if k == "bool":
             w = rng.choice([1, 1, 2, 8])
-            xdoc.add_param(self.d, name, xdoc.ptype_num("bool", xdoc.numeric_enc("int", w)))
+            cal = None
+            if rng.random() < 0.35:
+                # a boolean over a calibrated encoding: its truth is that of the RAW value (here the calibrated value has the opposite one)
+                from harness.calib import rat as _rat
+                from harness.props.c08 import poly as _poly
+                cal = {"default": _poly([(_rat(1), 0), (_rat(-1), 1)]) if w == 1 else _poly([(_rat(0), 1)]), "context": []}
+            xdoc.add_param(self.d, name, xdoc.ptype_num("bool", xdoc.numeric_enc("int", w), cal))
             self.enc[name] = lambda ctx, w=w: bits_of(rng.choice([0, 0, 1, rng.getrandbits(w)]) & ((1 << w) - 1), w)
             return name, None
         if k in ("calib", "time"):
